@@ -362,10 +362,39 @@ def src_index(repo, out):
     if consumer_flattens is None:
         raise AnalysisError(f'{cons.ident}: get_src_index_array is no longer called here')
 
+    class _View:
+        """Terms of a helper method seen from the caller: its parameters are replaced by the argument terms."""
+
+        def __init__(self, base, amap):
+            self.base, self.amap, self.g, self.rd = base, amap, base.g, base.rd
+
+        def at(self, expr):
+            return self.base.at(expr)
+
+        def term(self, expr, at=None, depth=0):
+            t_ = self.base.term(expr, at)
+            return subst(t_, lambda x: self.amap.get(x, x) if _k(x, 'param') else x) if self.amap else t_
+    fn0, sym0 = fn, sym
     n_general = 0
-    for st in rets:
+    work = [(fn0, sym0, st, 0) for st in rets]
+    while work:
+        fn, sym, st, depth = work.pop(0)
+        g = sym.g
         at = g.nodes_of(st)[0]
         t = sym.term(st.value, at)
+        # `return self._helper(...)`: follow the method of the same class with its parameters bound to the arguments
+        if isinstance(st.value, ast.Call) and isinstance(st.value.func, ast.Attribute) and \
+                astx.path(st.value.func.value) == 'self' and depth < 2 and fn.cls is not None:
+            callee = repo.lookup(fn.rel, fn.cls.name, st.value.func.attr)
+            bnd = _bind(st.value, _param_names(callee.node, skip_self=True)) if callee is not None else None
+            hrets = [s_ for s_ in astx.walk_stmts(callee.node.body) if isinstance(s_, ast.Return) and
+                     s_.value is not None and not (isinstance(s_.value, ast.Constant) and s_.value.value is None)] \
+                if callee is not None else []
+            if bnd is not None and hrets and callee.node is not fn.node:
+                amap = {('param', p_): sym.term(e_, at) for p_, e_ in bnd.items()}
+                view = _View(Sym(callee), amap)
+                work[0:0] = [(callee, view, s_, depth + 1) for s_ in hrets]
+                continue
         flat = _is_flat_term(t)
         general = [a for a in alts(t) if contains(_strip_flat(a), lambda x: _k(x, 'attr') and x[2] == 'indexed_val')]
         if general:
@@ -509,6 +538,7 @@ def src_index(repo, out):
                         'shape: for a NON-flat index into a multi-dimensional source (e.g. src_indices=1 or [-1, 0] '
                         'selecting rows of a (3,4) source) it yields the raw index values as flat positions; the '
                         'transfer then reads wrong/uninitialised source positions', key=f'single-indexer-shortcut:{cq}')
+    fn, sym, g = fn0, sym0, sym0.g
     if n_general == 0:
         out.bad(fn, fn.node, 'no branch composes the src_indices chain (indexed_val over src_inds_list): inputs '
                 'promoted with src_indices at several levels cannot get the right source positions',
@@ -3477,6 +3507,20 @@ _AP_ROLES = ("        upper = (group.pathname, prom_name)\n        lower = (subs
              "        src = self.get_node_attrs(src_key[0], src_key[1], io_char)[0]\n"
              "        tgt, tgt_attrs = self.get_node_attrs(tgt_key[0], tgt_key[1], io_char)\n")
 
+_SI_OLD = ("        else:\n            root = self.get_root(node)\n            root_meta = self.nodes[root]['attrs']\n"
+           "            if root_meta.distributed:\n                root_shape = root_meta.global_shape\n            else:\n"
+           "                root_shape = root_meta.shape\n"
+           "            arr = np.arange(shape_to_len(root_shape)).reshape(root_shape)\n"
+           "            for inds in src_inds_list:\n                arr = inds.indexed_val(arr)\n"
+           "            return np.atleast_1d(arr).ravel()\n")
+_SI_HELPER = ("        else:\n            return self._chain_to_flat_src_indices(node, src_inds_list)\n\n"
+              "    def _chain_to_flat_src_indices(self, node, idx_chain):\n"
+              "        src_meta = self.nodes[self.get_root(node)]['attrs']\n"
+              "        full_shape = src_meta.shape if not src_meta.distributed else src_meta.global_shape\n"
+              "        flat_idxs = np.arange(shape_to_len(full_shape)).reshape(full_shape)\n"
+              "        for idxer in idx_chain:\n            flat_idxs = idxer.indexed_val(flat_idxs)\n"
+              "        return np.atleast_1d(flat_idxs).ravel()\n")
+
 selftest(
     'C04',
     # ---- order
@@ -3817,4 +3861,10 @@ selftest(
     Twin('twin-api-role-variables-output-test', CONN, _AP_OLD, _AP_ROLES.replace("(upper, lower) if io == 'input' else (lower, upper)", "(lower, upper) if io != 'input' else (upper, lower)")),
     Mutant('api-role-variables-swapped', CONN, _AP_OLD, _AP_ROLES.replace("(upper, lower) if io == 'input' else (lower, upper)", "(lower, upper) if io == 'input' else (upper, lower)"), 'C04.api'),
     Mutant('api-role-variables-wrong-element', CONN, _AP_OLD, _AP_ROLES.replace("self.get_node_attrs(tgt_key[0], tgt_key[1], io_char)", "self.get_node_attrs(tgt_key[0], src_key[1], io_char)"), 'C04.api'),
+    # ---- robustness round 4: chain composition extracted into a helper method
+    Twin('twin-srcidx-helper', CONN, _SI_OLD, _SI_HELPER),
+    Mutant('srcidx-helper-reversed', CONN, _SI_OLD, _SI_HELPER.replace("for idxer in idx_chain:", "for idxer in idx_chain[::-1]:"), 'C04.src-index'),
+    Mutant('srcidx-helper-not-flat', CONN, _SI_OLD, _SI_HELPER.replace("return np.atleast_1d(flat_idxs).ravel()", "return flat_idxs"), 'C04.src-index'),
+    Mutant('srcidx-helper-node-shape', CONN, _SI_OLD, _SI_HELPER.replace("self.nodes[self.get_root(node)]['attrs']", "self.nodes[node]['attrs']"), 'C04.src-index'),
+    Mutant('srcidx-helper-other-list', CONN, _SI_OLD, _SI_HELPER.replace("self._chain_to_flat_src_indices(node, src_inds_list)", "self._chain_to_flat_src_indices(node, src_inds_list[1:])"), 'C04.src-index'),
 )
